@@ -274,3 +274,45 @@ mut("c16_parse_partial_assignment", "C16", "rule.py", '''        self.antecedent
         self.antecedent.text = " ".join(antecedent)
         self.consequent.text = " ".join(consequent)
 ''', "behaviour-preserving reorder (control): must NOT be reported", benign=True)
+
+# ---------------------------------------------------------------- oracle-liveness mutants (one per otherwise untriggered oracle)
+mut("c13_discrete_shares_values", "C13", "term.py", '''    def membership(self, x: Scalar) -> Scalar:
+        r"""Compute the membership function value of $x$.
+
+        The function uses binary search to find the lower and upper bounds of $x$ and then linearly''', '''    def __deepcopy__(self, memo):  # type: ignore
+        result = Discrete(self.name, None, self.height)
+        result.values = self.values  # "immutable" data: no need to copy
+        memo[id(self)] = result
+        return result
+
+    def membership(self, x: Scalar) -> Scalar:
+        r"""Compute the membership function value of $x$.
+
+        The function uses binary search to find the lower and upper bounds of $x$ and then linearly''',
+    "deep copy of a Discrete term shares the xy array with the original (in-place edit of the copy changes the original)")
+mut("c12_failure_wrapped", "C12", "variable.py",
+    "        value = np.array(self.defuzzifier.defuzzify(self.fuzzy, self.minimum, self.maximum))\n",
+    "        try:\n            value = np.array(self.defuzzifier.defuzzify(self.fuzzy, self.minimum, self.maximum))\n"
+    "        except Exception as ex:\n            raise RuntimeError(f\"defuzzification of '{self.name}' failed\") from ex\n",
+    "defuzzifier exceptions are wrapped: the original exception object no longer propagates, state is intact - C12 does not "
+    "forbid that, so this is a behaviour-preserving control for C12: must NOT be reported", benign=True)
+mut("c16_parse_sets_weight_early", "C16", "rule.py", '''            elif state == s_with:
+                weight = float(token)
+                state = s_end''', '''            elif state == s_with:
+                weight = self.weight = float(token)
+                state = s_end''', "Rule.parse commits the weight before the rest of the text is validated (trailing token => rule changed by a rejected assignment)")
+mut("c16_load_rules_swallows", "C16", "rule.py", '''        if exceptions:
+            raise RuntimeError("failed to load the following rules:\\n" + "\\n".join(exceptions))''', '''        if exceptions:
+            settings.logger.error("failed to load the following rules:\\n" + "\\n".join(exceptions))''',
+    "RuleBlock.load_rules logs instead of raising")
+mut("c16_load_rules_stops_at_first", "C16", "rule.py", '''            except Exception as ex:
+                exceptions.append(f"['{str(rule)}']: {str(ex)}")
+        if exceptions:''', '''            except Exception as ex:
+                exceptions.append(f"['{str(rule)}']: {str(ex)}")
+                break
+        if exceptions:''', "RuleBlock.load_rules stops at the first bad rule: later good rules stay unloaded")
+mut("c13_copy_mutates_source", "C13", "engine.py", "        engine = copy.deepcopy(self)\n        return engine", "        engine = copy.deepcopy(self)\n        for v in self.output_variables:\n            v.fuzzy.clear()\n        return engine",
+    "copy() clears the source's fuzzy outputs")
+mut("c02_batch_squeezes_to_scalar_list", "C02", "defuzzifier.py", "        z = ((x * y).sum(axis=1) / y.sum(axis=1)).squeeze()\n        return z  # type: ignore",
+    "        z = ((x * y).sum(axis=1) / y.sum(axis=1)).squeeze()\n        return z[:-1] if z.ndim == 1 and z.size > 2 else z  # type: ignore",
+    "Centroid drops the last row of batches of 3 or more")
